@@ -65,9 +65,10 @@ class RandomShim:
         if not 0 <= k <= len(population):
             raise ValueError('Sample larger than population or is negative')
         n = len(population)
-        if self.permutations:
+        if self.permutations and n <= 5:
+            # random.sample returns an ordered selection: every k-permutation is a possible answer
             options = list(itertools.permutations(range(n), k))
-            ans = self.ex.next('sample %d of %d' % (k, n), len(options))
+            ans = self.ex.next('sample-ordered %d of %d' % (k, n), len(options))
             return [population[i] for i in options[ans]]
         ans = self.ex.next('sample %d of %d' % (k, n), math.comb(n, k))
         return [population[i] for i in nth_combination(n, k, ans)]
